@@ -80,6 +80,37 @@ pub fn gen(rng: &mut Rng, thorough: bool, out: &mut Sink) {
         str_pats.len(),
         re_pats.len()
     ));
+    // exhaustive chains of two splits: every (pattern, behaviour) pair twice x all strings up to length 4 (5)
+    let chain_alpha = ['a', ' ', 'é'];
+    let chain_strings = all_strings(&chain_alpha, if thorough { 5 } else { 4 });
+    let chain_pats: Vec<SplitPattern> = vec![
+        SplitPattern::Character(' '),
+        SplitPattern::Character('é'),
+        SplitPattern::String("a".into()),
+        SplitPattern::Regex(Regex::new(r"\s+").unwrap()),
+    ];
+    let mut stages: Vec<Split> = Vec::new();
+    for p in &chain_pats {
+        for b in BEHAVIORS {
+            stages.push(Split::Pattern { pattern: p.clone(), behavior: b });
+        }
+    }
+    let mut nchain = 0u64;
+    for s1 in &stages {
+        for s2 in &stages {
+            for t in &chain_strings {
+                out.push(split_line(&[s1.clone(), s2.clone()], t));
+                nchain += 1;
+            }
+        }
+    }
+    out.add("exhaustive_chain_cases", nchain);
+    out.exhaustive.push(format!(
+        "SPLIT chains: every ordered pair of {} stages (4 patterns x 6 behaviours) x all strings up to length {} over {:?}",
+        stages.len(),
+        if thorough { 5 } else { 4 },
+        chain_alpha
+    ));
     // random: longer texts, all regexes, chains up to 3, unicode script
     let nrand = if thorough { 60000 } else { 6000 };
     for _ in 0..nrand {
